@@ -8,7 +8,7 @@ from dataclasses import dataclass, field
 from typing import Optional
 
 from .absint import Evaluator, Frame, State
-from .index import AnalysisError, ClassInfo, Mod, Repo
+from .index import AnalysisError, ClassInfo, Mod, Repo, walk_no_nested
 from .terms import App, Const, Ref
 
 COMMON = "suit_generator.suit.types.common"
@@ -59,6 +59,18 @@ class MetaInfo:
     embedded: Optional[list] = None  # list of KeyRef
     raw_children: Optional[list] = None
     patches: list = field(default_factory=list)
+
+
+def _always_raises(stmts) -> bool:
+    """Every path through the statement list ends in ``raise`` (no loops / try considered: conservative False)."""
+    for st in stmts:
+        if isinstance(st, ast.Raise):
+            return True
+        if isinstance(st, ast.If) and st.orelse and _always_raises(st.body) and _always_raises(st.orelse):
+            return True
+        if isinstance(st, (ast.For, ast.While, ast.Try, ast.With, ast.Match)):
+            return False
+    return False
 
 
 class Schema:
@@ -267,8 +279,7 @@ class Schema:
         m = self.repo.lookup_method(ci, "from_cbor")
         if m is None:
             return False
-        body = [s for s in m.node.body if not (isinstance(s, ast.Expr) and isinstance(s.value, ast.Constant))]
-        return len(body) >= 1 and isinstance(body[0], ast.Raise)
+        return _always_raises(m.node.body) and not any(isinstance(n, (ast.Return, ast.Yield, ast.YieldFrom)) for n in walk_no_nested(m.node))
 
     def leaf_constraints(self, ci: ClassInfo) -> dict:
         """Size constraints a leaf class applies in its own from_cbor (``len(x) != N``)."""
